@@ -12,7 +12,9 @@ from ..core import MachineryError, pmap
 PRELUDE = ["(defmacro idm [x] x)", "(defmacro wrapm [x] `(do (e 0 0) ~x))", "(setv aug-x 1)",
            "(defmacro gen0 [a] `(/ 1 ~a))", "(defmacro gen1 [a] `(do (/ 1 ~a)))", "(defmacro gen2 [a] `(do (setv gen-r (/ 1 ~a)) gen-r))",
            "(defmacro gen3 [a] `(do (when True (setv gen-r [(/ 1 ~a)])) gen-r))",
-           "(defreader genr (setv a (.parse-one-form &reader)) `(do (setv gen-r [(/ 1 ~a)]) gen-r))"]
+           "(defreader genr (setv a (.parse-one-form &reader)) `(do (setv gen-r [(/ 1 ~a)]) gen-r))",
+           "(defmacro genf [a] `(str f\"v{(/ 1 ~a)}\"))", "(defmacro genfs [a] `(str f\"v{1 :>{(/ 1 ~a)}}\"))",
+           "(defmacro genl [a] `[1 (/ 1 ~a)])", "(defmacro gend [a] `{1 (/ 1 ~a)})"]
 
 # name -> (lines before the hole, text appended to the hole's last line, lines after)
 TEMPLATES = {
@@ -58,6 +60,7 @@ RAISERS = {
     "py-lambda-default": ['(py "(lambda y=1 / 0: y)()")'], "pys-with": ['(pys "with open(1 / 0): pass")'],
     "py-call": ['(py "boom()")'],
     "gen-d0": ["(gen0", "0)"], "gen-d1": ["(gen1", "0)"], "gen-d2": ["(gen2", "0)"], "gen-d3": ["(gen3", "0)"],
+    "gen-fstr": ["(genf", "0)"], "gen-fspec": ["(genfs", "0)"], "gen-list": ["(genl", "0)"], "gen-dict": ["(gend", "0)"],
     "rgen-d2": ["#genr 0"], "domac-d2": ["(do-mac (hy.models.Expression [(hy.models.Symbol \"do\")", "(hy.models.Expression [(hy.models.Symbol \"/\") 1 0])]))"],
 }
 FILENAME = "<hyv_lines>"
@@ -123,7 +126,8 @@ EXC = {"call": "RuntimeError", "call3": "RuntimeError", "div2": "ZeroDivisionErr
        "cut2": "TypeError", "py-compr-if": "ZeroDivisionError", "py-compr-iter": "ZeroDivisionError",
        "py-lambda-default": "ZeroDivisionError", "pys-with": "ZeroDivisionError", "py-call": "RuntimeError",
        "gen-d0": "ZeroDivisionError", "gen-d1": "ZeroDivisionError", "gen-d2": "ZeroDivisionError", "gen-d3": "ZeroDivisionError",
-       "rgen-d2": "ZeroDivisionError", "domac-d2": "ZeroDivisionError"}
+       "rgen-d2": "ZeroDivisionError", "domac-d2": "ZeroDivisionError", "gen-fstr": "ZeroDivisionError",
+       "gen-fspec": "ZeroDivisionError", "gen-list": "ZeroDivisionError", "gen-dict": "ZeroDivisionError"}
 
 
 def _one(rec):
@@ -139,7 +143,7 @@ def main(run):
                 run.work, workers=16, label="lines")
     if r.violated:
         raise MachineryError(f"HyLines: {r.violated} violated on the specification")
-    run.add_tlc(r, f"HyLines: every chain of <= {md} enclosing constructs (31 kinds) x 25 raising forms, with its layout")
+    run.add_tlc(r, f"HyLines: every chain of <= {md} enclosing constructs (31 kinds) x 29 raising forms, with its layout")
     rows = r.ex("PROG")
     run.log(f"TLC: {len(rows)} programs")
     rows.sort(key=lambda x: json.dumps(x, sort_keys=True))
@@ -180,7 +184,7 @@ def main(run):
     return run.finish("model_checking",
                       f"every chain of <= {md} enclosing constructs out of 31 (statement-lifting forms, comprehensions of both "
                       "strategies, functions, classes, try / with / loops, let, match, call and collection slots, f-string, core "
-                      "and user macros) around each of 25 raising forms (1-3 lines; six of them code generated by a macro, reader macro or do-mac call at depth 0-3 of the expansion); HyLines computes the line span of the raising "
+                      "and user macros) around each of 29 raising forms (1-3 lines; ten of them code generated by a macro, reader macro or do-mac call: at depth 0-3 of the expansion, inside f-string fields, as collection displays); HyLines computes the line span of the raising "
                       "form; the program is compiled and run and the last traceback frame of the module compared with the span"
 ,
                       extra={"programs": len(rows)})
